@@ -391,7 +391,10 @@ def render(repo):
     for s in g["sites"]:
         w("    line %d: %s: guard `%s` pre `%s` fmt `%s` plain `%s`" % (s["line"], s["lhs"], comment_of(s["guard"]), comment_of(s["pre"]), comment_of(s["fmt"]), comment_of(s["plain"])))
     w("-/")
-    w("def grepSites : List QuoteSite := [\n  " + ",\n  ".join(site(s) for s in g["sites"]) + "]")
+    names = {"optarg": "siteOptarg", "operands": "siteOperands", "option": "siteOption", "grep": "sitePattern"}
+    for s in g["sites"]:
+        w("def %s : QuoteSite := %s" % (names[s["lhs"]], site(s)))
+    w("def grepSites : List QuoteSite := [" + ", ".join(names[s["lhs"]] for s in g["sites"]) + "]")
     w("")
     s = d["site"]
     w("/-- xzdiff.in:%d  `%s) cmp=%s`printf %s \"$1\" | sed \"$escape\"`;;  %s) cmp=%s;;` -/" % (
